@@ -43,6 +43,14 @@ func c16Cases(tier string, seed int64) []core.Case {
 			cases = append(cases, core.Case{ID: fmt.Sprintf("tree/%d/dotu=%v", t, dotu), Run: func(ctx *core.Ctx) core.Result { return c16Run(ctx, t, dotu) }})
 		}
 	}
+	for t, sp := range []string{"trailing-slash", "dot-element"} {
+		t, sp := t, sp
+		cases = append(cases, core.Case{ID: fmt.Sprintf("tree/%d/root-%s", t, sp), Run: func(ctx *core.Ctx) core.Result {
+			rootSpelling = sp
+			defer func() { rootSpelling = "" }()
+			return c16Run(ctx, t, t == 0)
+		}})
+	}
 	for t := 0; t < 2; t++ {
 		t := t
 		cases = append(cases, core.Case{ID: fmt.Sprintf("tree/%d/plain-client-of-dotu-server", t), Run: func(ctx *core.Ctx) core.Result {
@@ -266,6 +274,68 @@ func c16Run(ctx *core.Ctx, tree int, dotu bool) core.Result {
 			fail(sig, fmt.Sprintf("%s: fid should designate %q but %s", what, short(rel), e))
 		}
 		res.Count("stats_compared", 1)
+	}
+	// ".." is a name too: from the root it designates the root, below it the parent; the fid reached that way is the
+	// same object with the same stat as the one reached by its plain path
+	{
+		var dirs []string
+		for _, nd := range nodes {
+			if nd.kind == "dir" && len(split(nd.rel)) <= 3 {
+				dirs = append(dirs, nd.rel)
+			}
+		}
+		if len(dirs) > 6 {
+			dirs = dirs[:6]
+		}
+		type dd struct {
+			names []string
+			rel   string
+		}
+		cases := []dd{{[]string{".."}, ""}, {[]string{"..", ".."}, ""}}
+		for _, d := range dirs {
+			comps := split(d)
+			up := append(append([]string{}, comps...), "..")
+			cases = append(cases, dd{up, filepath.Dir(d)})
+			all := append([]string{}, comps...)
+			for range comps {
+				all = append(all, "..")
+			}
+			cases = append(cases, dd{append(all, ".."), ""})
+		}
+		for _, cse := range cases {
+			rel := cse.rel
+			if rel == "." {
+				rel = ""
+			}
+			if len(cse.names) > 16 {
+				continue
+			}
+			for _, inplace := range []bool{false, true} {
+				if inplace {
+					if w := rr.rpc(&wire.Msg{Type: wire.Twalk, Fid: 0, Newfid: 13}); w == nil || w.Type != wire.Rwalk {
+						continue
+					}
+					w := rr.rpc(&wire.Msg{Type: wire.Twalk, Fid: 13, Newfid: 13, Wname: cse.names})
+					res.Evals++
+					if w != nil && w.Type == wire.Rwalk && len(w.Wqid) == len(cse.names) {
+						statIs(13, rel, fmt.Sprintf("walk %q in place", cse.names), "dotdot-walk;inplace")
+					} else {
+						fail("dotdot-walk;refused", fmt.Sprintf("walk %q answered %v", cse.names, w))
+					}
+					rr.rpc(&wire.Msg{Type: wire.Tclunk, Fid: 13})
+				} else {
+					w := rr.rpc(&wire.Msg{Type: wire.Twalk, Fid: 0, Newfid: 13, Wname: cse.names})
+					res.Evals++
+					if w != nil && w.Type == wire.Rwalk && len(w.Wqid) == len(cse.names) {
+						statIs(13, rel, fmt.Sprintf("walk %q", cse.names), "dotdot-walk;newfid")
+						rr.rpc(&wire.Msg{Type: wire.Tclunk, Fid: 13})
+					} else {
+						fail("dotdot-walk;refused", fmt.Sprintf("walk %q answered %v", cse.names, w))
+					}
+				}
+			}
+			res.Sig(fmt.Sprintf("dotdot|%d|%v|%d", tree, dotu, len(cse.names)))
+		}
 	}
 	// paths that lead THROUGH a symbolic link to a directory (the host resolves them; so must a walk)
 	var through []node
